@@ -101,7 +101,10 @@ def gen_case(rng, base, path=None):
     if path == 'premain':
         # a loader with options of its own (most with env_var), some of them written in front of the command name
         gen = optlib.gen_spec(rng, wf_bias=1.0)
-        while len(gen) < 2:
+        def clash(g):
+            ls = [o['long'] for o in g if o['long']] + [o['inverse'] for o in g if o['long'] and o['inverse']]
+            return len(ls) != len(set(ls))
+        while len(gen) < 2 or clash(gen):       # `no-<long>` as inverse may collide with a long of the pool
             gen = optlib.gen_spec(rng, wf_bias=1.0)
         k = rng.randint(1, len(gen) - 1)
         free = [e for e in optlib.ENVS if e not in [o['env_var'] for o in gen]]
@@ -579,7 +582,7 @@ def account(st, case, impl, model, spec):
         st.count('form:' + a[0] + ('+cluster' if a[0] in ('sAtt', 'sDet') and a[1] else ''))
     for o in case['spec'][case['n_base']:]:
         st.count('type:' + o['type'])
-    r = model['res']
+    r = model.get('res') or {'err': 'pre-command-part-not-parsed'}
     st.count('result:' + ('ok' if 'ok' in r else 'err-' + r['err']))
     st.count('wf:%s' % model.get('wf'))
     if spec is not None:
